@@ -2,7 +2,10 @@ package rewriter
 
 import (
 	"go/ast"
+	"go/token"
+	"go/types"
 	"log"
+	"strings"
 
 	"github.com/goghcrow/go-ast-matcher"
 	"github.com/goghcrow/go-imports"
@@ -259,9 +262,186 @@ func (o *optimizer) etaReduction() {
 		func(c *astmatcher.Cursor, ctx astmatcher.Ctx) {
 			params := ctx.Binds["params"].(*ast.FieldList).List
 			args := ctx.Binds["args"].(ExprsNode)
-			if matched(ctx, params, args) {
-				c.Replace(ctx.Binds["fun"])
+			fun := ctx.Binds["fun"].(ast.Expr)
+			if matched(ctx, params, args) && stableCallee(ctx, c.Node(), fun) && sameType(ctx, c.Node(), fun) {
+				c.Replace(fun)
 			}
 		},
 	)
+}
+
+// stableCallee reports whether evaluating fun once, where the literal stood,
+// denotes the same function as evaluating it at every call of the literal:
+//   - a package-level function (possibly instantiated / package-qualified), or
+//   - a pointer-receiver method value x.M of a pointer-typed local variable x that
+//     is assigned exactly once (its declaration) and whose address is not taken, or
+//   - a method value of one of the iterator temporaries of rewritten range loops.
+//
+// Function-typed variables and fields (may be reassigned), method values of
+// other receivers (receiver re-evaluated or copied at a different time),
+// builtins and conversions (not values at all) are left alone.
+func stableCallee(ctx astmatcher.Ctx, lit ast.Node, fun ast.Expr) bool {
+	info := ctx.TypeInfo()
+	pkgLevelFunc := func(id *ast.Ident) bool {
+		fn, ok := info.Uses[id].(*types.Func)
+		if !ok || fn.Pkg() == nil {
+			return false
+		}
+		// only functions of the file's own package and of the seq runtime: whether a
+		// function of another user package resolves depends on which generated files
+		// already exist on disk (go:generate mode), and the output must not
+		if fn.Pkg() != ctx.Pkg.Types && fn.Pkg().Path() != pkgSeqPath {
+			return false
+		}
+		sig, ok := fn.Type().(*types.Signature)
+		return ok && sig.Recv() == nil && fn.Parent() == fn.Pkg().Scope()
+	}
+
+	switch fun := fun.(type) {
+	case *ast.ParenExpr:
+		return stableCallee(ctx, lit, fun.X)
+	case *ast.IndexExpr: // f[T]
+		return isFuncName(fun.X, pkgLevelFunc)
+	case *ast.IndexListExpr: // f[K, V]
+		return isFuncName(fun.X, pkgLevelFunc)
+	case *ast.Ident:
+		return pkgLevelFunc(fun)
+	case *ast.SelectorExpr:
+		if isFuncName(fun, pkgLevelFunc) { // pkg.F
+			return true
+		}
+		recv, ok := fun.X.(*ast.Ident)
+		if !ok {
+			return false
+		}
+		x, ok := info.Uses[recv].(*types.Var)
+		if !ok || x.IsField() || x.Pkg() == nil || x.Parent() == x.Pkg().Scope() {
+			return false
+		}
+		if lit.Pos() <= x.Pos() && x.Pos() < lit.End() {
+			return false // x is a parameter of the literal itself
+		}
+		// the iterator temporaries of rewritten range loops: generated, assigned once
+		// from a constructor, never nil
+		temporary := strings.HasPrefix(x.Name(), cstIterVar)
+		if x.Type() == types.Typ[types.Invalid] {
+			// partial package (go:generate mode): the receiver's type is not known,
+			// so neither that M is a method nor that x is a pointer or interface
+			return temporary && !reassigned(ctx.File.File, info, x, true)
+		}
+		sel := info.Selections[fun]
+		if sel == nil || sel.Kind() != types.MethodVal || len(sel.Index()) != 1 {
+			return false
+		}
+		switch x.Type().Underlying().(type) {
+		case *types.Interface:
+			// x.M on a nil interface panics when the method value is created,
+			// the literal only when it is called
+			return temporary && !reassigned(ctx.File.File, info, x, false)
+		case *types.Pointer:
+			// x.M with a value receiver is (*x).M: it copies *x when the method
+			// value is created, the literal reads *x when it is called
+			recv := sel.Obj().Type().(*types.Signature).Recv()
+			if _, ptr := recv.Type().(*types.Pointer); !ptr {
+				return false
+			}
+			return !reassigned(ctx.File.File, info, x, false)
+		}
+		return false
+	}
+	return false
+}
+
+// sameType: the literal and its callee have identical function types, so the
+// replacement cannot change the static type of the surrounding expression
+// (func(x int) any { return id(x) } is not id).
+func sameType(ctx astmatcher.Ctx, lit ast.Node, fun ast.Expr) bool {
+	l, ok := lit.(ast.Expr)
+	if !ok {
+		return false
+	}
+	lt, ft := ctx.TypeOf(l), ctx.TypeOf(fun)
+	if unknownType(lt) || unknownType(ft) {
+		// the optimise stage may see a partial package (go:generate mode reloads
+		// the rewritten files only): nothing to compare against
+		return true
+	}
+	return types.Identical(lt, ft)
+}
+
+// unknownType: no (complete) type was recorded for a function-typed expression.
+func unknownType(t types.Type) bool {
+	sig, ok := t.(*types.Signature)
+	if !ok {
+		return true // nil, invalid
+	}
+	if sig.TypeParams().Len() > 0 {
+		return true // an instantiation that could not be type-checked
+	}
+	for _, tuple := range []*types.Tuple{sig.Params(), sig.Results()} {
+		for i := 0; i < tuple.Len(); i++ {
+			if tuple.At(i).Type() == types.Typ[types.Invalid] {
+				return true
+			}
+		}
+	}
+	return false
+}
+
+func isFuncName(e ast.Expr, pkgLevelFunc func(*ast.Ident) bool) bool {
+	switch e := e.(type) {
+	case *ast.Ident:
+		return pkgLevelFunc(e)
+	case *ast.SelectorExpr:
+		if _, isPkg := e.X.(*ast.Ident); isPkg {
+			return pkgLevelFunc(e.Sel)
+		}
+	}
+	return false
+}
+
+// reassigned reports whether variable x is written after its declaration
+// or has its address taken anywhere in the file; with deep, also whether
+// anything selected or indexed from x is written.
+func reassigned(file *ast.File, info *types.Info, x *types.Var, deep bool) (yes bool) {
+	var is func(e ast.Expr) bool
+	is = func(e ast.Expr) bool {
+		switch e := e.(type) {
+		case *ast.Ident:
+			return info.Uses[e] == x
+		case *ast.ParenExpr:
+			return is(e.X)
+		case *ast.SelectorExpr: // x.f = ..
+			return deep && is(e.X)
+		case *ast.IndexExpr: // x[i] = ..
+			return deep && is(e.X)
+		case *ast.StarExpr: // *x = ..
+			return deep && is(e.X)
+		}
+		return false
+	}
+	ast.Inspect(file, func(n ast.Node) bool {
+		switch n := n.(type) {
+		case *ast.FuncType:
+			if n.Results != nil { // a named result is written by every return
+				for _, field := range n.Results.List {
+					for _, name := range field.Names {
+						yes = yes || info.Defs[name] == x
+					}
+				}
+			}
+		case *ast.AssignStmt:
+			for _, lhs := range n.Lhs {
+				yes = yes || is(lhs)
+			}
+		case *ast.IncDecStmt:
+			yes = yes || is(n.X)
+		case *ast.RangeStmt:
+			yes = yes || (n.Key != nil && is(n.Key)) || (n.Value != nil && is(n.Value))
+		case *ast.UnaryExpr:
+			yes = yes || (n.Op == token.AND && is(n.X))
+		}
+		return !yes
+	})
+	return
 }
